@@ -56,6 +56,8 @@ class LiveRender:
         style = console.get_style(self.style)
         lines = console.render_lines(self.renderable, options, style=style, pad=False)
         _Segment = Segment
+        # rows that do not fit the terminal could never be erased again: crop
+        lines = lines[: console.size.height]
         shape = _Segment.get_shape(lines)
         if self._shape is None:
             self._shape = shape
